@@ -95,9 +95,10 @@ func ConcatItems[T any](items []T) (T, error) {
 	var cv reflect.Value
 	var err error
 
-	if typ.Kind() == reflect.Interface {
+	if typ.Kind() == reflect.Interface && GetConcatFunc(typ) == nil {
 		// the chunks of an interface-typed stream are concatenated by their dynamic type, the way the values under
-		// a key of a map[string]any are; chunks that have no common dynamic type keep the generic treatment below
+		// a key of a map[string]any are; chunks that have no common dynamic type keep the generic treatment below.
+		// A function registered for the interface type itself goes first.
 		if dv, ok := dynamicSliceValue(v); ok {
 			v, typ = dv, dv.Type().Elem()
 		}
